@@ -77,6 +77,10 @@ def make_view_ext(rng, shape, kind):
 INT_POOL = [-1, 0, 1, 2, 3, 4]
 FLOAT_POOL = [-1.0, 0.0, 0.5, 1.0, 2.0, 3.0, 4.0]
 STR_POOL = ["a", "b", "cc", "dd", "eee"]
+# wide pools (about n/2 distinct keys for 60-300 rows): many DISTINCT selected keys and duplicated unselected keys
+WIDE_INT_POOL = list(range(0, 120))
+WIDE_FLOAT_POOL = [0.5 * k for k in range(120)]
+WIDE_STR_POOL = ["k%03d" % k for k in range(120)]
 BIG_INT_POOL = list(range(-2, 9))
 BIG_FLOAT_POOL = [-1.0, -0.5, 0.0, 0.5, 1.0, 1.5, 2.0, 2.5, 3.0, 4.0, 5.0]
 BIG_STR_POOL = ["a", "b", "cc", "dd", "eee", "f", "gg", "hhh", "ab", "ba"]
@@ -158,7 +162,10 @@ def gen_column(rng, n, kind, width=None, negzero=None, pool_size=None, scale="un
     partner: dtype name of the column this one is compared with (values are drawn so that both can store most)."""
     if kind in ("str", "object"):
         spool = STR_PREFIX_POOL if str_pool == "prefix" else STR_POOL
-        if pool_size is not None:
+        if pool_size == "wide":
+            spool = WIDE_STR_POOL
+            width = max(4, width or 4)
+        elif pool_size is not None:
             spool = BIG_STR_POOL[:pool_size]
         vals = [rng.choice(spool) for _ in range(n)]
         if kind == "object":
@@ -168,7 +175,9 @@ def gen_column(rng, n, kind, width=None, negzero=None, pool_size=None, scale="un
             col = {"dtype": "<U%d" % w, "values": vals}
     else:
         dt = np.dtype(kind)
-        if pool_size is not None:
+        if pool_size == "wide":
+            pool = WIDE_INT_POOL if dt.kind in "iu" else WIDE_FLOAT_POOL
+        elif pool_size is not None:
             pool = (BIG_INT_POOL if dt.kind in "iu" else BIG_FLOAT_POOL)[:pool_size + 1]
         else:
             pool = NUM_POOLS[scale]
@@ -318,7 +327,9 @@ def gen_edge_columns(rng, na, nb, shape, pairing, pool_size=None):
     kwx, kwy = {}, {}
     scale = rng.choice(SCALES) if pool_size is None else "unit"
     common = {"pool_size": pool_size, "scale": scale, "str_pool": rng.choice(["normal", "normal", "prefix"])}
-    if pairing == "same":
+    if pairing == "same" and pool_size == "wide":
+        x = y = rng.choice(["float64", "float64", "str", "str", "int64", "float32"])
+    elif pairing == "same":
         x = y = rng.choice(SAME_DTYPES)
     elif pairing == "int_vs_float":
         x, y = rng.choice(["int64", "int32", "int16", "uint8"]), rng.choice(["float64", "float64", "float32", ">f8"])
@@ -429,12 +440,17 @@ def gen_graph(rng, tier, large=False):
     for ei, (a, b) in enumerate(edges):
         if rng.random() < 0.5:
             a, b = b, a
-        shape = rng.choice(SHAPES) if not large else rng.choice(["n-n", "n-n", "n-n", "1-1", "1-n", "n-1"])
+        shape = rng.choice(SHAPES) if not large else rng.choice(["n-n", "n-n", "1-1", "1-1", "1-n", "n-1"])
         pairing = rng.choice(PAIRINGS)
         if topo == "cycle":
             pairing = "same"
         na, nb = len(tables[a]["v"]), len(tables[b]["v"])
-        cols_a, cols_b = gen_edge_columns(rng, na, nb, shape, pairing, pool_size=rng.choice([3, 5, 9]) if large else None)
+        psize = None
+        if large:
+            psize = "wide" if (shape == "1-1" and rng.random() < 0.75) or rng.random() < 0.15 else rng.choice([3, 5, 9])
+            if psize == "wide":
+                pairing = rng.choice(["same", "same", "float_width", "str_width", "int_vs_float", "neg_zero"])
+        cols_a, cols_b = gen_edge_columns(rng, na, nb, shape, pairing, pool_size=psize)
         names_a, names_b = [], []
         for side, cols, names in ((a, cols_a, names_a), (b, cols_b, names_b)):
             tab = tables[side]
@@ -1184,6 +1200,28 @@ def one_query(ctx, b, desc, adj, cyclic, phase, s, sel, t, vkind, rng):
                                             "20_or_more" if nsel >= 20 else "few"))
         if hshape == "n-n" and nsel >= 25:
             ctx.count("eval_large_nn_many_selected_duplicated_keys")
+        if hshape == "1-1":
+            e_ = desc["edges"][hop_edge]
+            cl_, cr_ = edge_sides(desc, hop_edge, first[0][0], first[0][1])
+            lcol = desc["tables"][first[0][0]]["cols"][cl_[0]]
+            rcol = desc["tables"][first[0][1]]["cols"][cr_[0]]
+            up_mask = propagate(desc, first[1:], src_mask) if len(first) >= 2 else src_mask
+            selected = {norm(v) for v, m in zip(rcol["values"], up_mask) if m}
+            seen, dup_unselected, dup_selected = set(), False, False
+            for v in lcol["values"]:
+                k_ = norm(v)
+                if k_ in seen:
+                    if k_ in selected:
+                        dup_selected = True
+                    else:
+                        dup_unselected = True
+                seen.add(k_)
+            if len(selected) >= 14 and dup_unselected and dup_selected:
+                kind_ = "str" if is_str(lcol) else ("float" if np.dtype(lcol["dtype"]).kind == "f" else "int")
+                ctx.count("eval_large_11_many_distinct_selected_and_duplicated_unselected_left_keys")
+                ctx.count("eval_large_11_many_distinct_selected_and_duplicated_unselected_left_keys:" + kind_)
+                if len(first) >= 2:
+                    ctx.count("eval_large_11_many_distinct_selected_and_duplicated_unselected_left_keys:through_chain")
     ctx.count("eval_hops:%d" % min(len(first), 3))
     if len(paths) == 1:
         ctx.count("eval_shape:" + hshape)
@@ -1297,6 +1335,10 @@ def floors(counters, tier):
             ("eval_mask_after_fault", 1500), ("eval_mask_after_fault_through_chain", 300),
             ("eval_large", 500), ("eval_large_shape:n-n", 200), ("eval_large_nn_many_selected_duplicated_keys", 100),
             ("eval_large_selected:one", 30), ("eval_large_selected:all", 30),
+            ("eval_large_11_many_distinct_selected_and_duplicated_unselected_left_keys:float", 35),
+            ("eval_large_11_many_distinct_selected_and_duplicated_unselected_left_keys:str", 20),
+            ("eval_large_11_many_distinct_selected_and_duplicated_unselected_left_keys:int", 15),
+            ("eval_large_11_many_distinct_selected_and_duplicated_unselected_left_keys:through_chain", 10),
             # adversarial widening round
             ("column_layout:strided", 200), ("column_layout:reversed", 200), ("column_layout:broadcast", 200),
             ("column_layout:fortran", 200), ("column_layout:readonly", 200), ("column_storage:dask", 20),
